@@ -504,9 +504,16 @@ impl CommandBuilder<'_> {
                 Err(e) => Err(CommandExecutionError::CannotRun(e)),
             },
             ExecAction::Echo => {
+                // With -I the line replaces R in the initial arguments (the
+                // default command has none) and nothing is appended.
+                let appended: &[OsString] = if self.options.replace.is_some() {
+                    &[]
+                } else {
+                    &self.extra_args
+                };
                 println!(
                     "{}",
-                    self.extra_args
+                    appended
                         .iter()
                         .map(|arg| arg.to_string_lossy())
                         .collect::<Vec<_>>()
